@@ -39,9 +39,16 @@ EXPLANATION = (
     'literal; R7 every option of the configuration tables is read with the getter of its declared type and has a default of that type. '
     'R2 also requires that a visit performing one of the two literal simplifications has consulted the flag of the other one '
     '(otherwise a literal qualifying for both needs two runs). '
+    'R8 every whitespace mover call that moves the trivia of a child onto the visited node takes it from a child the printer (RawPrinter, '
+    'traversal resolved through its MRO and delegations) can emit last for that node class, so trivia is never re-emitted behind later '
+    'children (opening instead of closing bracket, first instead of last element, inherited traversal reordered at its end); R9 inside a '
+    'mover every store into a field of the destination whitespace that visit_WhitespaceNode reads (text, continuation flag) precedes the '
+    're-normalising visit of that whitespace in the CFG. R2 reads the lexer regex table by role (the table Lexer.lex iterates and matches '
+    'with), through module/class constants, splices, +, append/extend/+=, conditional arms and expression-bodied helpers. '
     'Guards are decided as branch atoms in the world a counter-hypothesis describes (a representative of the input class is used only '
     'to give the atoms of a guard a truth value; no statement sequence or method body is interpreted, values computed by the code are '
-    'never propagated). Does NOT decide: idempotence, the five-round fixpoint, line-splitting layout, newline translation of '
+    'never propagated). Does NOT decide: idempotence beyond the R9 ordering clause, the order of the inherited FullAstVisitor traversal except for its last child '
+    '(the full textual order of every field is C02.R3), moves onto a child instead of the visited node (empty array), the five-round fixpoint, line-splitting layout, newline translation of '
     '--check-only (CRLF input with end_of_line=lf compares equal yet --inplace rewrites: depends on file contents), the f-string test '
     'for a triple-quoted f-string that is simplified in the same visit (its value is re-derived by escape() before the test), whether a '
     'backslash continuation keeps its newline inside brackets (needs the value correlation between the per-line comment table and the '
@@ -57,7 +64,8 @@ ASSUMPTIONS = [
 ]
 TECHNIQUE = ('who-may-write classification by node types resolved from annotations; path enumeration with guard atoms decided three-valued in '
              'counter-hypothesis worlds (truth atoms, canonical trailing-comma atom, declared node classes); CFG must-pass; decision table '
-             '(sa.tables) for check mode; regex-language facts (sa.rx) for the literal hazards')
+             '(sa.tables) for check mode; regex-language facts (sa.rx) for the literal hazards; last-emitted-child sets folded over the printer traversal '
+             'statements (role designators, no execution); CFG reachability visit -> store in the movers')
 
 COMMENT_SAMPLES = ['  # c\n', '# c\n    ', '\n# c\n']
 LAYOUT_ATTRS = {'whitespaces', 'pre_whitespaces', 'condition_level'}
@@ -715,15 +723,193 @@ def _sort_guards(ctx: RuleCtx, p: Pass, qn: str, fn: ast.FunctionDef, site: ast.
 # ---------------------------------------------------------------------------
 # R2: literal simplification guards
 
-def _token_regex(ctx: RuleCtx, tid: str) -> Regex:
+def _token_table_sources(ctx: RuleCtx, mod: Module) -> T.Tuple[str, T.List[T.Tuple[ast.AST, T.Optional[ast.AST]]]]:
+    """The ordered regex table of the lexer, by role: the iterable of the `for (tid, rx) in <table>:` loop of Lexer.lex whose
+    body matches with the second loop variable.  Returns its spelling and the expressions that build it, each with the function
+    it is written in: `self.X = e` / `self.X += e` / `self.X.append|extend|insert(e)` in the methods of Lexer, a class-level or
+    module-level constant."""
+    lex = mod.func('Lexer.lex')
+    tables: T.List[ast.AST] = []
+
+    def matches_with(scope: T.Iterable[ast.AST], rxvar: str) -> bool:
+        return any(isinstance(c, ast.Call) and isinstance(c.func, ast.Attribute) and c.func.attr in ('match', 'fullmatch') and attr_chain(c.func.value) == rxvar
+                   for sc in scope for c in ast.walk(sc))
+    for fn0 in mod.methods('Lexer').values():            # the loop may live in a helper of the lexer, or be a generator expression
+        for n in ast.walk(fn0):
+            if isinstance(n, ast.For):
+                tg, itx, scope = n.target, n.iter, list(n.body)
+            elif isinstance(n, (ast.GeneratorExp, ast.ListComp)) and len(n.generators) == 1:
+                g = n.generators[0]
+                tg, itx, scope = g.target, g.iter, [n.elt] + list(g.ifs)
+            else:
+                continue
+            if isinstance(tg, ast.Tuple) and len(tg.elts) == 2 and all(isinstance(e, ast.Name) for e in tg.elts) and matches_with(scope, tg.elts[1].id):  # type: ignore[attr-defined]
+                if all(norm(itx) != norm(t) for t in tables):
+                    tables.append(itx)
+    if len(tables) != 1:
+        raise Undecided(f'mparser.Lexer: {len(tables)} tables iterated as `for (tid, regex) in <table>` and matched with the loop variable; expected one')
+    it = tables[0]
+    while isinstance(it, ast.Call) and attr_chain(it.func) in ('list', 'tuple', 'iter') and len(it.args) == 1:
+        it = it.args[0]
+    key = attr_chain(it)
+    if key is None:
+        return norm(it), [(it, lex)]
+    out: T.List[T.Tuple[ast.AST, T.Optional[ast.AST]]] = []
+    cls = mod.cls('Lexer')
+    if key.startswith(('self.', 'cls.', 'Lexer.')) and key.count('.') == 1:
+        attr = key.split('.')[1]
+        if mod.has_assign(attr, cls):
+            out.append((mod.assign_value(attr, cls), None))
+        for mn, fn in mod.methods('Lexer').items():
+            for st in ast.walk(fn):
+                tg: T.List[ast.AST] = []
+                val: T.Optional[ast.AST] = None
+                if isinstance(st, ast.Assign):
+                    tg, val = list(st.targets), st.value
+                elif isinstance(st, (ast.AnnAssign, ast.AugAssign)) and st.value is not None:
+                    tg, val = [st.target], st.value
+                elif isinstance(st, ast.Call) and isinstance(st.func, ast.Attribute) and st.func.attr in ('append', 'extend', 'insert') and st.args:
+                    tg, val = [st.func.value], st.args[-1]
+                    if st.func.attr != 'extend':
+                        val = ast.List(elts=[val], ctx=ast.Load())
+                if val is not None and any(attr_chain(t) == f'self.{attr}' for t in tg):
+                    out.append((val, fn))
+    elif '.' not in key and mod.has_assign(key):
+        out.append((mod.assign_value(key), None))
+    if not out:
+        raise Undecided(f'mparser.Lexer: no definition of the token table `{key}` found')
+    return key, out
+
+
+def _token_table(ctx: RuleCtx) -> T.Dict[str, T.List[T.Any]]:
+    """token id -> folded patterns of its entries in the lexer's regex table (policy form a: constant folding).  The table
+    expression is read through displays, `*` splices, `+`, list()/tuple()/T.cast wrappers, module constants, single-definition
+    locals, both arms of a conditional and expression-bodied helper functions (arguments substituted); a part that is none of
+    these must fold as a whole to a sequence of (id, pattern) pairs, otherwise the rule is undecided."""
+    from . import c16_sym
     mod = ctx.repo.module(MP)
-    fn = mod.func('Lexer.__init__')
-    for n in ast.walk(fn):
-        if isinstance(n, ast.Tuple) and len(n.elts) == 2 and isinstance(n.elts[0], ast.Constant) and n.elts[0].value == tid:
-            r = fold_expr(ctx.repo, mod, n.elts[1])
-            if isinstance(r, Regex):
-                return r
-    raise Undecided(f'mparser.Lexer: token class {tid!r} not found in token_specification')
+    key, sources = _token_table_sources(ctx, mod)
+    entries: T.Dict[str, T.List[T.Any]] = {}
+
+    def fold_alts(e: ast.AST) -> T.List[T.Any]:
+        if isinstance(e, ast.IfExp):
+            try:
+                return [fold_expr(ctx.repo, mod, e)]
+            except Undecided:
+                return fold_alts(e.body) + fold_alts(e.orelse)
+        return [fold_expr(ctx.repo, mod, e)]
+
+    def local_def(fn: T.Optional[ast.AST], name: str) -> T.Optional[ast.AST]:
+        if fn is None:
+            return None
+        if name in [a.arg for a in fn.args.posonlyargs + fn.args.args + fn.args.kwonlyargs]:      # type: ignore[attr-defined]
+            raise Undecided(f'mparser.Lexer: the token table `{key}` depends on the parameter `{name}`')
+        defs = [n for n in ast.walk(fn) if isinstance(n, (ast.Assign, ast.AnnAssign, ast.AugAssign, ast.NamedExpr, ast.For, ast.comprehension))
+                and any(isinstance(x, ast.Name) and x.id == name and isinstance(x.ctx, ast.Store) for t in
+                        (n.targets if isinstance(n, ast.Assign) else [n.target]) for x in ast.walk(t))]
+        if not defs:
+            return None
+        if len(defs) == 1 and isinstance(defs[0], (ast.Assign, ast.AnnAssign)) and defs[0].value is not None \
+                and isinstance((defs[0].targets[0] if isinstance(defs[0], ast.Assign) else defs[0].target), ast.Name):
+            return defs[0].value
+        raise Undecided(f'mparser.Lexer: the local `{name}` that feeds the token table `{key}` is not a single plain definition')
+
+    def whole(e: ast.AST) -> None:
+        try:
+            v = fold_expr(ctx.repo, mod, e)
+        except Undecided as ex:
+            raise Undecided(f'mparser.Lexer: part `{short(e)}` of the token table `{key}` is not read: {ex}')
+        if isinstance(v, dict):
+            v = list(v.items())
+        if not isinstance(v, (list, tuple)) or not all(isinstance(p, (list, tuple)) and len(p) == 2 and isinstance(p[0], str) for p in v):
+            raise Undecided(f'mparser.Lexer: part `{short(e)}` of the token table `{key}` does not fold to (id, pattern) pairs')
+        for tid, pat in v:
+            entries.setdefault(tid, []).append(pat)
+
+    def expand(e: ast.AST, fn: T.Optional[ast.AST], depth: int) -> None:
+        if depth > 8:
+            raise Undecided(f'mparser.Lexer: the token table `{key}` is nested too deeply to read')
+        if isinstance(e, ast.Tuple) and len(e.elts) == 2 and isinstance(e.elts[0], ast.Constant) and isinstance(e.elts[0].value, str) \
+                and not isinstance(e.elts[1], ast.Starred):
+            v = e.elts[1]
+            try:                                  # an entry whose pattern is not constant is kept as None: only a requested class must fold
+                if isinstance(v, ast.Name):
+                    v = local_def(fn, v.id) or v
+                alts = fold_alts(v)
+            except Undecided:
+                alts = [None]
+            entries.setdefault(e.elts[0].value, []).extend(alts)
+        elif isinstance(e, (ast.List, ast.Tuple)):
+            for x in e.elts:
+                expand(x.value if isinstance(x, ast.Starred) else x, fn, depth + 1)
+        elif isinstance(e, ast.BinOp) and isinstance(e.op, ast.Add):
+            expand(e.left, fn, depth + 1)
+            expand(e.right, fn, depth + 1)
+        elif isinstance(e, ast.IfExp):
+            expand(e.body, fn, depth + 1)
+            expand(e.orelse, fn, depth + 1)
+        elif isinstance(e, ast.Name):
+            d = local_def(fn, e.id)
+            if d is not None:
+                expand(d, fn, depth + 1)
+            elif mod.has_assign(e.id):
+                expand(mod.assign_value(e.id), None, depth + 1)
+            else:
+                whole(e)
+        elif isinstance(e, ast.Attribute) and attr_chain(e.value) in ('self', 'cls', 'Lexer') and mod.has_assign(e.attr, mod.cls('Lexer')) \
+                and not any(isinstance(n, ast.Attribute) and isinstance(n.ctx, ast.Store) and n.attr == e.attr for n in ast.walk(mod.cls('Lexer'))):
+            expand(mod.assign_value(e.attr, mod.cls('Lexer')), None, depth + 1)       # a class-level constant that no method rebinds
+        elif isinstance(e, ast.Call):
+            cn = attr_chain(e.func) or ''
+            if cn in ('list', 'tuple') and len(e.args) == 1 and not e.keywords:
+                expand(e.args[0], fn, depth + 1)
+            elif cn in ('T.cast', 'typing.cast') and len(e.args) == 2:
+                expand(e.args[1], fn, depth + 1)
+            else:
+                callee: T.Optional[ast.AST] = None
+                skip = False
+                if isinstance(e.func, ast.Name) and mod.has_func(e.func.id):
+                    callee = mod.func(e.func.id)
+                elif isinstance(e.func, ast.Attribute) and attr_chain(e.func.value) in ('self', 'cls', 'Lexer') and mod.has_func(f'Lexer.{e.func.attr}'):
+                    callee = mod.func(f'Lexer.{e.func.attr}')
+                    skip = 'staticmethod' not in [attr_chain(d) for d in callee.decorator_list]        # type: ignore[attr-defined]
+                    if attr_chain(e.func.value) == 'Lexer' and skip and 'classmethod' not in [attr_chain(d) for d in callee.decorator_list]:  # type: ignore[attr-defined]
+                        callee = None
+                if callee is None:
+                    whole(e)
+                    return
+                # arguments are substituted into the helper's expression; an argument that is a local of the caller is resolved first
+                args_fn = fn
+                call = copy.deepcopy(e)
+                for holder in [call.args, call.keywords]:
+                    for i, a in enumerate(holder):
+                        v = a.value if isinstance(a, ast.keyword) else a
+                        if isinstance(v, ast.Name):
+                            d = local_def(args_fn, v.id)
+                            if d is not None:
+                                if isinstance(a, ast.keyword):
+                                    a.value = d
+                                else:
+                                    holder[i] = d
+                body = c16_sym.inline_call(callee, call, skip)
+                if body is None:
+                    raise Undecided(f'mparser.Lexer: the helper `{short(e.func)}` that builds the token table `{key}` is not a single expression')
+                expand(body, None, depth + 1)
+        else:
+            whole(e)
+
+    for e, fn in sources:
+        expand(e, fn, 0)
+    return entries
+
+
+def _token_regex(ctx: RuleCtx, tid: str) -> Regex:
+    alts = _token_table(ctx).get(tid, [])
+    if not alts:
+        raise Undecided(f'mparser.Lexer: token class {tid!r} not found in the regex table the lexer iterates over')
+    if len(alts) != 1 or not isinstance(alts[0], Regex):
+        raise Undecided(f'mparser.Lexer: token class {tid!r} has {len(alts)} table entries / a pattern that does not fold to a regex')
+    return alts[0]
 
 
 def _lexer_flagged_chars(ctx: RuleCtx) -> T.List[str]:
@@ -1519,6 +1705,26 @@ def r3(ctx: RuleCtx) -> None:
     ctx.floor('appending whitespace writes', n_keep, 1)
 
 
+def _alias_restored(fn: ast.FunctionDef, site: ast.stmt, alias: str) -> bool:
+    """The whitespace node was bound to the single-definition local `alias` before `site` unlinked it: is `alias.value` concatenated
+    into the content of some whitespace (`<x>.value = .. + alias.value + ..` / `<x>.value += alias.value`) on every path from the
+    site to a normal return?  (CFG must-pass; nothing is evaluated.)"""
+    defs = [n for n in ast.walk(fn) if isinstance(n, ast.Name) and n.id == alias and isinstance(n.ctx, ast.Store)]
+    if len(defs) != 1:
+        return False
+    cfg = CFG(fn)
+    via = []
+    for n in cfg.nodes:
+        st = n.ast
+        if n.kind != 'stmt' or not isinstance(st, (ast.Assign, ast.AugAssign)):
+            continue
+        tgts = st.targets if isinstance(st, ast.Assign) else [st.target]
+        if all(isinstance(t, ast.Attribute) and t.attr == 'value' for t in tgts) and any(norm(l) == f'{alias}.value' for l in _add_leaves(st.value)):
+            via.append(n)
+    srcs = cfg.stmt_nodes(site)
+    return bool(via) and bool(srcs) and all(cfg.must_pass(a, cfg.exit_return, via, no_exc=True) for a in srcs)
+
+
 def _judge_site(ctx: RuleCtx, p: Pass, qn: str, fn: ast.FunctionDef, s: Site, w: Write, movers: T.Dict[str, T.Tuple[int, int]],
                 passes: T.List[Pass], colons_inv: bool) -> str:
     # canonical owner texts at the site
@@ -1589,6 +1795,8 @@ def _judge_site(ctx: RuleCtx, p: Pass, qn: str, fn: ast.FunctionDef, s: Site, w:
             if isinstance(st, ast.Assign) and len(st.targets) == 1 and isinstance(st.targets[0], ast.Name) and isinstance(st.value, ast.Call) \
                     and isinstance(st.value.func, ast.Attribute) and st.value.func.attr == 'splitlines' and norm(sub(st.value.func.value)) == loc:
                 notes['captured'] = st.targets[0].id
+            if isinstance(st, ast.Assign) and len(st.targets) == 1 and isinstance(st.targets[0], ast.Name) and norm(sub(st.value)) == parent:
+                notes['alias'] = st.targets[0].id      # the whitespace node itself is kept in a local before it is unlinked
         for c in walk_no_nested(st):
             ma = _mover_args(p, c, movers) if isinstance(c, ast.Call) else None
             if ma is not None and norm(sub(ma[0])) + '.whitespaces' == parent:
@@ -1612,6 +1820,9 @@ def _judge_site(ctx: RuleCtx, p: Pass, qn: str, fn: ast.FunctionDef, s: Site, w:
                 continue
             if r.notes.get('moved'):
                 how.add('moved')
+                continue
+            if r.notes.get('alias') and s.loc == 'node' and _alias_restored(fn, s.stmt, r.notes['alias']):
+                how.add('moved')          # unlinked first, its content concatenated into another whitespace afterwards on every way out
                 continue
             if r.notes.get('captured'):
                 prob = _rebuild_ok(ctx, p, qn, fn, s.stmt, norm(w.node), r.notes['captured'])
@@ -2184,6 +2395,467 @@ def kwarg_of(call: ast.Call, name: str) -> T.Optional[ast.AST]:
     return next((k.value for k in call.keywords if k.arg == name), None)
 
 
+# ---------------------------------------------------------------------------
+# R8: trivia moved up onto a composite node comes from the child the printer emits last
+
+_EMPTY = ('empty',)
+_NODE = ('node',)
+Desig = T.Tuple[T.Any, ...]
+
+
+class _PrintOrder:
+    """Which child of a node can be the LAST thing the printer class emits for it, read from the traversal methods the printer
+    resolves (`visit_X` through the MRO, `self.visit_Y(node)` / `super().visit_Y(node)` delegation, helper methods taking the
+    node).  Children are designated by role: ('attr', a) = node.a, ('last', a) = last element of node.a, ('any', a) = an element
+    of node.a pulled from an iterator, ('first', a), ('index', a, k).  Nothing is executed: statement lists are folded left to
+    right into the set of children that may be emitted last (a statement that may emit nothing keeps the earlier candidates)."""
+
+    def __init__(self, ctx: RuleCtx, mod: Module, cls: ast.ClassDef):
+        self.ctx, self.mod, self.cls = ctx, mod, cls
+        self.mro = ctx.repo.mro(mod, cls)
+
+    # -- designators ---------------------------------------------------------------------------------------------
+    @staticmethod
+    def desig(e: ast.AST, env: T.Dict[str, T.Any]) -> T.Optional[Desig]:
+        if isinstance(e, ast.Name):
+            v = env.get(e.id)
+            return v if isinstance(v, tuple) and v and isinstance(v[0], str) and v[0] not in ('iter', 'tuple', 'const') else None
+        if isinstance(e, ast.Attribute) and isinstance(e.value, ast.Name) and env.get(e.value.id) == _NODE:
+            return ('attr', e.attr)
+        if isinstance(e, ast.Call) and attr_chain(e.func) == 'getattr' and len(e.args) == 2 and isinstance(e.args[0], ast.Name) \
+                and env.get(e.args[0].id) == _NODE:
+            a = e.args[1]
+            if isinstance(a, ast.Constant) and isinstance(a.value, str):
+                return ('attr', a.value)
+            if isinstance(a, ast.Name) and isinstance(env.get(a.id), tuple) and env[a.id][0] == 'const':
+                return ('attr', env[a.id][1])
+            return None
+        if isinstance(e, ast.Call) and attr_chain(e.func) == 'next' and e.args and isinstance(e.args[0], ast.Name):
+            it = env.get(e.args[0].id)
+            return ('any', it[1]) if isinstance(it, tuple) and it and it[0] == 'iter' else None
+        if isinstance(e, ast.Subscript):
+            base = _PrintOrder.desig(e.value, env)
+            if base is not None and base[0] == 'attr':
+                k = e.slice
+                if isinstance(k, ast.UnaryOp) and isinstance(k.op, ast.USub) and isinstance(k.operand, ast.Constant) and isinstance(k.operand.value, int):
+                    kv: T.Any = -k.operand.value
+                elif isinstance(k, ast.Constant) and isinstance(k.value, int):
+                    kv = k.value
+                else:
+                    return ('any', base[1])              # a computed position
+                return ('last', base[1]) if kv == -1 else (('first', base[1]) if kv == 0 else ('index', base[1], kv))
+        return None
+
+    @staticmethod
+    def elements(it: ast.AST, env: T.Dict[str, T.Any]) -> T.Any:
+        """Designator(s) of what the loop variable holds in the last iteration over `it` (a ('tuple', ...) for destructuring)."""
+        if isinstance(it, ast.Name) and isinstance(env.get(it.id), tuple) and env[it.id][0] == 'display':
+            return env[it.id][1]
+        d = _PrintOrder.desig(it, env)
+        if d is not None and d[0] == 'attr':
+            return ('last', d[1])
+        if isinstance(it, (ast.Tuple, ast.List)) and it.elts:
+            lastel = it.elts[-1]
+            if isinstance(lastel, ast.Starred):
+                return _PrintOrder.elements(lastel.value, env)
+            if isinstance(lastel, ast.Constant) and isinstance(lastel.value, str):
+                return ('const', lastel.value)
+            return _PrintOrder.desig(lastel, env)
+        if isinstance(it, ast.Call):
+            cn = attr_chain(it.func) or ''
+            if isinstance(it.func, ast.Attribute) and it.func.attr in ('values', 'keys', 'items') and not it.args:
+                d = _PrintOrder.desig(it.func.value, env)
+                if d is not None and d[0] == 'attr':
+                    if it.func.attr == 'items':
+                        return ('tuple', ('last', d[1] + '.keys'), ('last', d[1] + '.values'))
+                    return ('last', d[1] + '.' + it.func.attr)
+                return None
+            if cn in ('list', 'tuple', 'iter') and len(it.args) == 1:
+                return _PrintOrder.elements(it.args[0], env)
+            if cn == 'zip':
+                return ('tuple',) + tuple(_PrintOrder.elements(a, env) for a in it.args)
+            if cn.split('.')[-1] == 'zip_longest':
+                parts = []
+                for a in it.args:
+                    x = _PrintOrder.elements(a, env)
+                    parts.append(('any', x[1]) if isinstance(x, tuple) and x and x[0] == 'last' else None)
+                return ('tuple',) + tuple(parts)
+            if cn == 'enumerate' and it.args:
+                return ('tuple', None, _PrintOrder.elements(it.args[0], env))
+            if cn == 'reversed' and len(it.args) == 1:
+                x = _PrintOrder.elements(it.args[0], env)
+                return ('first', x[1]) if isinstance(x, tuple) and x and x[0] == 'last' else None
+        return None
+
+    @staticmethod
+    def bind(tg: ast.AST, el: T.Any, env: T.Dict[str, T.Any]) -> None:
+        if isinstance(tg, ast.Name):
+            env[tg.id] = el
+        elif isinstance(tg, (ast.Tuple, ast.List)):
+            parts = el[1:] if isinstance(el, tuple) and el and el[0] == 'tuple' and len(el) - 1 == len(tg.elts) else [None] * len(tg.elts)
+            for t, x in zip(tg.elts, parts):
+                _PrintOrder.bind(t, x, env)
+
+    # -- statements ----------------------------------------------------------------------------------------------
+    @staticmethod
+    def _emits(n: ast.AST) -> bool:
+        for c in ast.walk(n):
+            if isinstance(c, ast.Call) and isinstance(c.func, ast.Attribute):
+                if c.func.attr == 'accept' or attr_chain(c.func.value) in ('self', 'super()') or \
+                        (isinstance(c.func.value, ast.Call) and attr_chain(c.func.value.func) == 'super'):
+                    return True
+        return False
+
+    def find(self, name: str, after: T.Optional[ast.ClassDef]) -> T.Optional[T.Tuple[Module, ast.ClassDef, ast.FunctionDef]]:
+        seen_after = after is None
+        for m, c in self.mro:
+            if not seen_after:
+                seen_after = c is after
+                continue
+            for st in c.body:
+                if isinstance(st, ast.FunctionDef) and st.name == name:
+                    return m, c, st
+        return None
+
+    def arg_value(self, a: ast.AST, env: T.Dict[str, T.Any]) -> T.Any:
+        if isinstance(a, ast.Name) and a.id == 'self':
+            return ('self',)
+        if isinstance(a, ast.Name) and a.id in env:
+            return env[a.id]
+        return self.desig(a, env)
+
+    def method_lasts(self, name: str, after: T.Optional[ast.ClassDef], depth: int, call: T.Optional[ast.Call] = None,
+                     env: T.Optional[T.Dict[str, T.Any]] = None) -> T.Set[Desig]:
+        from .c16_sym import bind_args
+        if depth > 6:
+            raise Undecided(f'{self.cls.name}: traversal delegation through {name} is nested too deeply')
+        r = self.find(name, after)
+        if r is None:
+            raise Undecided(f'{self.cls.name}: method {name} not found in the class hierarchy of the printer')
+        _, c, fn = r
+        static = 'staticmethod' in [attr_chain(d) for d in fn.decorator_list]
+        if call is None:
+            ps = [a.arg for a in fn.args.args if a.arg not in ('self', 'cls')]
+            if len(ps) != 1:
+                raise Undecided(f'{c.name}.{name}: a traversal method with {len(ps)} parameters is not read')
+            return self.seq(fn.body, {ps[0]: _NODE}, c, depth + 1)
+        m = bind_args(fn, call, not static)
+        if m is None:
+            raise Undecided(f'{c.name}.{name}: cannot bind the arguments of `{short(call)}`')
+        return self.seq(fn.body, {k: self.arg_value(v, env or {}) for k, v in m.items()}, c, depth + 1)
+
+    def scope_parts(self, e: ast.AST, env: T.Dict[str, T.Any], depth: int) -> T.Tuple[T.List[ast.stmt], T.List[ast.stmt]]:
+        """(statements run on entry, statements run on normal exit) of the context manager expression `e` of a `with`: a
+        @contextmanager generator method (split at its yield) or an object of a class with __enter__/__exit__, built directly or
+        by a one-expression factory method; parameters and fields are renamed apart and bound in env."""
+        from .c16_sym import bind_args, helper_expression
+        if depth > 4 or not isinstance(e, ast.Call):
+            raise Undecided(f'{self.cls.name}: the context manager `{short(e)}` of a traversal is not read')
+        tag = f'_s{depth}_{len(env)}_'
+
+        def rename(stmts: T.List[ast.stmt], vals: T.Dict[str, T.Any], fields: bool) -> T.List[ast.stmt]:
+            class _R(ast.NodeTransformer):
+                def visit_Attribute(self, n: ast.Attribute) -> ast.AST:
+                    if fields and isinstance(n.value, ast.Name) and n.value.id == 'self' and n.attr in vals:
+                        return ast.Name(id='self' if vals[n.attr] == ('self',) else tag + n.attr, ctx=ast.Load())
+                    return self.generic_visit(n)
+
+                def visit_Name(self, n: ast.Name) -> ast.AST:
+                    if not fields and n.id in vals:
+                        return ast.Name(id='self' if vals[n.id] == ('self',) else tag + n.id, ctx=n.ctx)
+                    return n
+            for k, v in vals.items():
+                if v != ('self',):
+                    env[tag + k] = v
+            return [T.cast(ast.stmt, ast.fix_missing_locations(_R().visit(copy.deepcopy(x)))) for x in stmts]
+
+        f = e.func
+        fn: T.Optional[ast.FunctionDef] = None
+        if isinstance(f, ast.Attribute) and attr_chain(f.value) == 'self':
+            r = self.find(f.attr, None)
+            if r is not None:
+                fn = r[2]
+        if fn is not None:
+            m = bind_args(fn, e, 'staticmethod' not in [attr_chain(d) for d in fn.decorator_list])
+            if m is None:
+                raise Undecided(f'{self.cls.name}: cannot bind the arguments of `{short(e)}`')
+            vals = {k: self.arg_value(v, env) for k, v in m.items()}
+            if any((attr_chain(d) or '').split('.')[-1] == 'contextmanager' for d in fn.decorator_list):
+                body = list(fn.body)
+                pre: T.List[ast.stmt] = []
+                post: T.List[ast.stmt] = []
+                found = False
+                for i, st in enumerate(body):
+                    if isinstance(st, ast.Expr) and isinstance(st.value, ast.Yield):
+                        pre, post, found = body[:i], body[i + 1:], True
+                    elif isinstance(st, ast.Try) and any(isinstance(x, ast.Expr) and isinstance(x.value, ast.Yield) for x in st.body):
+                        j = next(k for k, x in enumerate(st.body) if isinstance(x, ast.Expr) and isinstance(x.value, ast.Yield))
+                        pre, post, found = body[:i] + st.body[:j], st.body[j + 1:] + st.orelse + st.finalbody + body[i + 1:], True
+                if not found or sum(isinstance(x, ast.Yield) for x in ast.walk(fn)) != 1:
+                    raise Undecided(f'{self.cls.name}: the generator `{fn.name}` used as a traversal scope is not split at a single yield')
+                return rename(pre, vals, False), rename(post, vals, False)
+            he = helper_expression(fn)
+            if he is None:
+                raise Undecided(f'{self.cls.name}: the scope factory `{fn.name}` is not a single expression')
+            inner = rename([ast.Expr(value=T.cast(ast.expr, he))], vals, False)[0]
+            return self.scope_parts(T.cast(ast.Expr, inner).value, env, depth + 1)
+        nm = attr_chain(f)
+        rc = None
+        for mm in ([self.mod] + [x[0] for x in self.mro]) if nm else []:
+            rc = self.ctx.repo.resolve_class(mm, nm)
+            if rc is not None:
+                break
+        if rc is None:
+            raise Undecided(f'{self.cls.name}: the context manager `{short(e)}` of a traversal is not read')
+        cm, cc = rc
+        meths = {x.name: x for x in cc.body if isinstance(x, ast.FunctionDef)}
+        if not {'__init__', '__enter__', '__exit__'} <= set(meths):
+            raise Undecided(f'{self.cls.name}: the scope class {cc.name} does not define __init__/__enter__/__exit__ itself')
+        m = bind_args(meths['__init__'], e, True)
+        if m is None:
+            raise Undecided(f'{self.cls.name}: cannot bind the arguments of `{short(e)}`')
+        pvals = {k: self.arg_value(v, env) for k, v in m.items()}
+        fvals: T.Dict[str, T.Any] = {}
+        for st in meths['__init__'].body:
+            if isinstance(st, (ast.Assign, ast.AnnAssign)) and st.value is not None:
+                tg = st.targets[0] if isinstance(st, ast.Assign) else st.target
+                if isinstance(tg, ast.Attribute) and attr_chain(tg.value) == 'self' and isinstance(st.value, ast.Name) and st.value.id in pvals:
+                    fvals[tg.attr] = pvals[st.value.id]
+        return rename(list(meths['__enter__'].body), fvals, True), rename(list(meths['__exit__'].body), fvals, True)
+
+    def seq(self, stmts: T.List[ast.stmt], env: T.Dict[str, T.Any], owner: ast.ClassDef, depth: int,
+            cur: T.Optional[T.Set[Desig]] = None) -> T.Set[Desig]:
+        cur = {_EMPTY} if cur is None else set(cur)
+        for st in stmts:
+            r = self.stmt(st, env, owner, depth)
+            cur = (r - {_EMPTY}) | (cur if _EMPTY in r else set())
+        return cur
+
+    def stmt(self, st: ast.stmt, env: T.Dict[str, T.Any], owner: ast.ClassDef, depth: int) -> T.Set[Desig]:
+        if isinstance(st, (ast.Assign, ast.AnnAssign)) and st.value is not None and not self._emits(st.value):
+            tg = st.targets[0] if isinstance(st, ast.Assign) and len(st.targets) == 1 else (st.target if isinstance(st, ast.AnnAssign) else None)
+            if isinstance(tg, ast.Name):
+                v = st.value
+                d: T.Any = self.desig(v, env)
+                if d is None and isinstance(v, ast.Call) and attr_chain(v.func) == 'iter' and len(v.args) == 1:
+                    x = self.elements(v.args[0], env)
+                    d = ('iter', x[1]) if isinstance(x, tuple) and x and x[0] == 'last' else None
+                elif d is None and isinstance(v, ast.Call) and attr_chain(v.func) == 'next' and v.args and isinstance(v.args[0], ast.Name):
+                    x = env.get(v.args[0].id)
+                    d = ('any', x[1]) if isinstance(x, tuple) and x and x[0] == 'iter' else None
+                elif d is None and isinstance(v, (ast.Tuple, ast.List)):
+                    d = ('display', self.elements(v, env))
+                env[tg.id] = d
+            elif tg is not None:
+                self.bind(tg, None, env)
+            return {_EMPTY}
+        if not self._emits(st):
+            return {_EMPTY}
+        if isinstance(st, ast.Expr) and isinstance(st.value, ast.Call) and isinstance(st.value.func, ast.Attribute):
+            c = st.value
+            f = T.cast(ast.Attribute, c.func)
+            if f.attr == 'accept' and len(c.args) == 1 and attr_chain(c.args[0]) == 'self':
+                d = self.desig(f.value, env)
+                if d is None:
+                    raise Undecided(f'{owner.name}: cannot tell which child `{short(st)}` emits')
+                return {_EMPTY} if d == ('attr', 'whitespaces') else {d}         # the node's own trailing trivia: the destination of a move
+            recv = attr_chain(f.value)
+            is_super = isinstance(f.value, ast.Call) and attr_chain(f.value.func) == 'super'
+            if recv == 'self' or is_super:
+                return self.method_lasts(f.attr, owner if is_super else None, depth, c, env)
+        if isinstance(st, ast.For) and not st.orelse:
+            env2 = dict(env)
+            self.bind(st.target, self.elements(st.iter, env), env2)
+            it = st.iter
+            if isinstance(it, ast.Name) and isinstance(env.get(it.id), tuple) and env[it.id][0] == 'display':
+                runs = True
+            else:
+                runs = isinstance(it, (ast.Tuple, ast.List)) and any(not isinstance(e, ast.Starred) for e in it.elts)
+            return self.seq(st.body, env2, owner, depth) | (set() if runs else {_EMPTY})
+        if isinstance(st, ast.If) and not self._emits(st.test):
+            return self.seq(st.body, dict(env), owner, depth) | self.seq(st.orelse, dict(env), owner, depth)
+        if isinstance(st, ast.Try):
+            out = self.seq(st.body + st.orelse, dict(env), owner, depth)
+            for h in st.handlers:
+                for k in range(len(st.body)):
+                    e2 = dict(env)
+                    out |= self.seq(h.body, e2, owner, depth, self.seq(st.body[:k], e2, owner, depth))
+            if st.finalbody:
+                out = self.seq(st.finalbody, dict(env), owner, depth, out)
+            return out
+        if isinstance(st, ast.With):
+            pre: T.List[ast.stmt] = []
+            post: T.List[ast.stmt] = []
+            for i in st.items:
+                if self._emits(i.context_expr):
+                    a, b = self.scope_parts(i.context_expr, env, 0)
+                    pre, post = pre + a, b + post
+            return self.seq(pre + st.body + post, env, owner, depth)
+        raise Undecided(f'{owner.name}: the traversal statement `{short(st)}` is not read')
+
+
+def _desig_text(d: Desig) -> str:
+    return {'attr': lambda: f'<node>.{d[1]}', 'last': lambda: f'last of <node>.{d[1]}', 'any': lambda: f'an element of <node>.{d[1]}',
+            'first': lambda: f'first of <node>.{d[1]}', 'index': lambda: f'<node>.{d[1]}[{d[2]}]', 'empty': lambda: 'nothing'}[d[0]]()
+
+
+def _source_designators(e: ast.AST, env: T.Dict[str, T.Any], inl: _Inline, depth: int) -> T.Set[T.Optional[Desig]]:
+    """Children a move may take the trivia from: both arms of a conditional, the expression of a selecting helper (inlined),
+    `list(<children>)[-1]`; None for anything that is not an access path of the visited node."""
+    if depth > 4:
+        return {None}
+    if isinstance(e, ast.IfExp):
+        return _source_designators(e.body, env, inl, depth + 1) | _source_designators(e.orelse, env, inl, depth + 1)
+    if isinstance(e, ast.Call) and attr_chain(e.func) not in ('getattr',):
+        r = inl.resolve(e)
+        return _source_designators(r, env, inl, depth + 1) if r is not None else {None}
+    if isinstance(e, ast.Subscript) and isinstance(e.value, ast.Call) and attr_chain(e.value.func) in ('list', 'tuple') and len(e.value.args) == 1:
+        el = _PrintOrder.elements(e.value.args[0], env)
+        k = norm(e.slice)
+        if isinstance(el, tuple) and el and el[0] == 'last':
+            return {el if k == '-1' else (('first', el[1]) if k == '0' else None)}
+        return {None}
+    return {_PrintOrder.desig(e, env)}
+
+
+def r8(ctx: RuleCtx) -> None:
+    """A whitespace mover m(src, node) prepends the trivia of src to the trivia of the visited node, which the printer emits after
+    every child of the node.  So src must be a child that the printer can emit last for that node class; otherwise the comments
+    (and line breaks) that followed src in the source are re-emitted behind the children that come after it."""
+    from .c16_sym import stmt_of
+    pr = ctx.repo.resolve_class(ctx.repo.module(MF), 'RawPrinter')
+    if pr is None:
+        raise Undecided('the printer class RawPrinter is not found')
+    order = _PrintOrder(ctx, pr[0], pr[1])
+    # built-in positive example: for a visit that emits a, b, c in this order only c can be last
+    ex = ast.parse('def visit_X(self, node):\n    self.enter_node(node)\n    for n in (node.a, node.b):\n        n.accept(self)\n    if node.c:\n        node.c.accept(self)\n').body[0]
+    got = order.seq(T.cast(ast.FunctionDef, ex).body[1:], {'node': _NODE}, pr[1], 0)
+    if got != {('attr', 'b'), ('attr', 'c')}:
+        raise Undecided(f'built-in example of the last-child reading gives {sorted(got)}')
+    n_sites = 0
+    skipped = 0
+    for p in _passes(ctx):
+        movers = _movers(p)
+        if not movers:
+            continue
+        inl = _Inline(ctx, p)
+        for mn, fn in _methods(p).items():
+            if mn in movers or not mn.startswith('visit_'):
+                continue
+            ps = [a.arg for a in fn.args.args if a.arg not in ('self', 'cls')]
+            if len(ps) != 1:
+                continue
+            x = ps[0]
+            qn = f'{p.name}.{mn}'
+            for c in ast.walk(fn):
+                ma = _mover_args(p, c, movers) if isinstance(c, ast.Call) else None
+                if ma is None:
+                    continue
+                site = stmt_of(fn, c)
+                if _canon_at(fn, site, ma[1]) != {x}:
+                    skipped += 1          # moved onto a child, not onto the visited node: another obligation
+                    continue
+                n_sites += 1
+                srcs: T.Set[T.Optional[Desig]] = set()
+                for txt in _canon_at(fn, site, ma[0]):
+                    e = ast.parse(txt, mode='eval').body
+                    env: T.Dict[str, T.Any] = {x: _NODE}
+                    if isinstance(e, ast.Name) and e.id != x:
+                        # a loop variable that survives its loop: the element of the last iteration
+                        loops = [l for l in ast.walk(fn) if isinstance(l, ast.For) and any(isinstance(t, ast.Name) and t.id == e.id for t in ast.walk(l.target))]
+                        if len(loops) == 1:
+                            _PrintOrder.bind(loops[0].target, _PrintOrder.elements(loops[0].iter, env), env)
+                    srcs |= _source_designators(e, env, inl, 0)
+                if None in srcs or not srcs:
+                    raise Undecided(f'{qn}: cannot tell which child `{short(site)}` takes the whitespace from')
+                lasts = order.method_lasts(mn, None, 0)
+                real = sorted(l for l in lasts if l != _EMPTY)
+                for s in sorted(srcs):            # type: ignore[type-var]
+                    assert s is not None
+                    ok = s in lasts or (s[0] == 'last' and ('any', s[1]) in lasts)
+                    if not ok and s[0] == 'any':
+                        raise Undecided(f'{qn}: `{short(site)}` moves the trivia of an element of <node>.{s[1]} at an unknown position')
+                    ctx.require(ok, f'{qn}: trivia moved onto the node comes from {_desig_text(s)}, which the printer emits last', p.mod, qn,
+                                f'trivia of {_desig_text(s)} moved behind the node',
+                                f'`{short(site)}` moves the trivia that followed {_desig_text(s)} to the end of the node, but {pr[1].name}.{mn} emits '
+                                f'{", ".join(_desig_text(l) for l in real) or "no child"} last: comments and line breaks would be re-emitted behind the children '
+                                f'that follow {_desig_text(s)}', site)
+    ctx.note(f'{n_sites} moves onto the visited node checked; {skipped} moves onto a child are outside this rule')
+    ctx.floor('whitespace moves onto the visited node', n_sites, 12)
+
+
+# ---------------------------------------------------------------------------
+# R9: a whitespace mover stores into the destination before, not after, the visit that re-normalises it
+
+def _stores_after_visit(fn: ast.FunctionDef, dst: str, fields: T.Set[str]) -> T.Tuple[int, T.List[T.Tuple[ast.stmt, str, ast.stmt]]]:
+    """(number of stores into `<dst>.whitespaces.<field>` for a field the whitespace visit reads, [(store, field, visit)] for the
+    stores that a visit `<dst>.whitespaces.accept(self)` can reach in the CFG).  Single-definition locals are resolved."""
+    single: T.Dict[str, T.List[ast.AST]] = {}
+    for st in ast.walk(fn):
+        if isinstance(st, ast.Assign) and len(st.targets) == 1 and isinstance(st.targets[0], ast.Name):
+            single.setdefault(st.targets[0].id, []).append(st.value)
+    params = [a.arg for a in fn.args.args]
+    binds = {k: v[0] for k, v in single.items() if len(v) == 1 and k not in params}
+    for _ in range(3):
+        binds = {k: subst(v, {a: b for a, b in binds.items() if a != k}) for k, v in binds.items()}
+    cfg = CFG(fn)
+    ws = f'{dst}.whitespaces'
+    visits, stores = [], []
+    for n in cfg.nodes:
+        st = n.ast
+        if n.kind != 'stmt' or st is None:
+            continue
+        if isinstance(st, ast.Expr) and isinstance(st.value, ast.Call) and isinstance(st.value.func, ast.Attribute):
+            c = st.value
+            if c.func.attr == 'accept' and norm(subst(c.func.value, binds)) == ws:            # type: ignore[attr-defined]
+                visits.append(n)
+            elif c.func.attr == 'visit_WhitespaceNode' and len(c.args) == 1 and norm(subst(c.args[0], binds)) == ws:       # type: ignore[attr-defined]
+                visits.append(n)
+        if isinstance(st, (ast.Assign, ast.AugAssign, ast.AnnAssign)):
+            tgts = st.targets if isinstance(st, ast.Assign) else [st.target]
+            for t in tgts:
+                if isinstance(t, ast.Attribute) and t.attr in fields and norm(subst(t.value, binds)) == ws:
+                    stores.append((n, t.attr))
+    late = [(T.cast(ast.stmt, sn.ast), f, T.cast(ast.stmt, v.ast)) for sn, f in stores for v in visits if cfg.can_reach(v, sn, no_exc=True)]
+    return (len(stores) if visits else 0), late
+
+
+def r9(ctx: RuleCtx) -> None:
+    """The mover ends with a visit of the destination whitespace that normalises its text and derives its state from the fields it
+    reads (text, continuation flag).  A store into one of these fields that the visit can reach in the control-flow graph means
+    the visit ran on stale input and its result is overwritten: the next run of the formatter sees another state (not idempotent)."""
+    ex = T.cast(ast.FunctionDef, ast.parse('def m(self, a, b):\n    b.whitespaces.value = a.whitespaces.value + b.whitespaces.value\n    w = b.whitespaces\n'
+                                           '    w.accept(self)\n    w.flag = a.whitespaces.flag\n').body[0])
+    n_ex, late_ex = _stores_after_visit(ex, 'b', {'value', 'flag'})
+    if n_ex != 2 or [f for _, f, _ in late_ex] != ['flag']:
+        raise Undecided(f'built-in example of the store-after-visit reading gives {n_ex} stores, late {[f for _, f, _ in late_ex]}')
+    n = 0
+    for p in _passes(ctx):
+        movers = _movers(p)
+        if not movers:
+            continue
+        r = ctx.repo.find_method(p.mod, p.cls, 'visit_WhitespaceNode')
+        if r is None:
+            continue
+        vfn = r[2]
+        x = _first_param(T.cast(ast.FunctionDef, vfn))
+        fields = {a.attr for a in ast.walk(vfn) if isinstance(a, ast.Attribute) and isinstance(a.ctx, ast.Load) and isinstance(a.value, ast.Name) and a.value.id == x}
+        for name, (i, j) in movers.items():
+            fn = _methods(p)[name]
+            ps = [a.arg for a in fn.args.args if a.arg != 'self']
+            qn = f'{p.name}.{name}'
+            cnt, late = _stores_after_visit(fn, ps[j], fields)
+            n += cnt
+            bad = {id(st) for st, _, _ in late}
+            for st, f, v in late:
+                ctx.violation(p.mod, qn, f'store into the destination whitespace field `{f}` after its re-normalising visit',
+                              f'`{short(st, 70)}` can run after `{short(v, 50)}`: {r[1].name}.visit_WhitespaceNode reads `{f}` to normalise the merged whitespace '
+                              f'and derive its state, so the visit used the stale `{f}` and what it derived is overwritten (a second format run sees another state)', st)
+            if cnt:
+                ctx.ok(f'{qn}: {cnt - len(bad)} store(s) into the fields of the destination whitespace that the visit reads ({", ".join(sorted(fields))}) precede the visit')
+    ctx.floor('stores of a mover into fields the whitespace visit reads', n, 1)
+
+
 def _scoped(fn: T.Callable[[RuleCtx], None]) -> T.Callable[[RuleCtx], None]:
     def run(ctx: RuleCtx) -> None:
         from . import c16_sym
@@ -2203,4 +2875,6 @@ RULES = [
     Rule('C16.R6', 'the printer emits the undecoded token text of a plain string literal', _scoped(r6)),
     Rule('C16.R7', 'every option is read from the configuration file with the getter of its declared type', _scoped(r7)),
     Rule('C16.R5', 'files() arguments are sorted after, not before, the argument list is replaced', _scoped(r5)),
+    Rule('C16.R8', 'trivia moved up onto a node comes from the child the printer emits last', _scoped(r8)),
+    Rule('C16.R9', 'a whitespace mover stores into the destination before the visit that re-normalises it', _scoped(r9)),
 ]
